@@ -5,6 +5,7 @@ import (
 	"encoding/json"
 	"fmt"
 	"mime/multipart"
+	"mime/quotedprintable"
 	"net/http"
 	"net/textproto"
 	"net/url"
@@ -102,22 +103,67 @@ func c06Doc(content gen.S, required bool) gen.S {
 	if required {
 		rb["required"] = true
 	}
-	return baseDoc(gen.S{"/b": gen.S{"post": gen.S{"requestBody": rb, "responses": okResponses()}}})
+	return baseDoc(gen.S{"/b": gen.S{"post": gen.S{"requestBody": rb, "responses": okResponses()}, "get": gen.S{"responses": okResponses()}}})
 }
 
+// Options belong to the caller. One value per distinct content serves every request of the process (as a server keeps
+// one); each router sees it first on the body-less GET operation; it must come back unchanged from every call.
+var (
+	c06Shared   = map[uint64]*openapi3filter.Options{}
+	c06Primed   = map[routers.Router]map[uint64]bool{}
+	c06Modified string
+)
+
 func c06Validate(router routers.Router, header string, body []byte, opts *openapi3filter.Options) (error, *core.PanicInfo) {
+	fp := Fingerprint(*opts)
+	shared, ok := c06Shared[fp]
+	if !ok {
+		cp := *opts
+		shared = &cp
+		c06Shared[fp] = shared
+	}
+	if c06Primed[router] == nil {
+		c06Primed[router] = map[uint64]bool{}
+		if len(c06Primed) > 64 {
+			for k := range c06Primed {
+				if k != router {
+					delete(c06Primed, k)
+				}
+			}
+		}
+	}
+	if !c06Primed[router][fp] {
+		c06Primed[router][fp] = true
+		if in, err := reqInput(router, newReq("GET", "http://h.t/b", nil, nil), shared); err == nil {
+			core.Guard(func() { openapi3filter.ValidateRequest(bgCtx, in) })
+		}
+		if Fingerprint(*shared) != fp && c06Modified == "" {
+			c06Modified = fmt.Sprintf("by GET /b (an operation without a request body): %+v", *shared)
+		}
+	}
 	hdr := http.Header{}
 	if header != "" {
 		hdr.Set("Content-Type", header)
 	}
 	req := newReq("POST", "http://h.t/b", hdr, body)
-	in, err := reqInput(router, req, opts)
+	in, err := reqInput(router, req, shared)
 	if err != nil {
 		return fmt.Errorf("route: %w", err), nil
 	}
 	var verr error
 	pi := core.Guard(func() { verr = openapi3filter.ValidateRequest(bgCtx, in) })
+	if Fingerprint(*shared) != fp && c06Modified == "" {
+		c06Modified = fmt.Sprintf("by POST /b with Content-Type %q: %+v", header, *shared)
+	}
 	return verr, pi
+}
+
+// c06OptionsMonitor reports, at the end of the shard, a caller-owned Options value that validation changed.
+func c06OptionsMonitor(c *core.Ctx) {
+	c.CoverN("options", "distinct Options values shared by all requests of the shard", len(c06Shared))
+	if c06Modified != "" {
+		c.Violate(map[string]string{"kind": "caller_options_modified"}, c06Witness{Part: "options", Got: c06Modified}, "ValidateRequest changed the Options value the caller passed, "+c06Modified)
+	}
 }
 
 func runC06(c *core.Ctx) {
@@ -176,6 +222,7 @@ func runC06(c *core.Ctx) {
 		}
 		idx++
 	}
+	c06OptionsMonitor(c)
 }
 
 func c06Selection(c *core.Ctx, mask int) {
@@ -455,7 +502,9 @@ func c06FormShapes() []c06form {
 	integer := gen.S{"type": "integer"}
 	return []c06form{
 		{"strings", gen.S{"type": "object", "properties": gen.S{"a": str, "b": str}, "required": gen.Arr("a")},
-			[]gen.S{{"a": "x"}, {"a": "x", "b": "y z"}, {"b": "y"}, {}, {"a": "é&="}}},
+			[]gen.S{{"a": "x"}, {"a": "x", "b": "y z"}, {"b": "y"}, {}, {"a": "é&="}, {"a": "a=b+c", "b": strings.Repeat("long line ", 12)}}},
+		{"text-constraints", gen.S{"type": "object", "properties": gen.S{"e": gen.S{"type": "string", "enum": gen.Arr("a=b+c", "x")}, "m": gen.S{"type": "string", "maxLength": 6.0}}},
+			[]gen.S{{"e": "a=b+c"}, {"e": "a=3Db+c"}, {"m": "é=é=é"}, {"m": "seven77"}, {"e": "x", "m": "=="}}},
 		{"typed", gen.S{"type": "object", "properties": gen.S{"n": integer, "f": gen.S{"type": "number"}, "t": gen.S{"type": "boolean"}, "s": gen.S{"type": "string", "minLength": 2.0}}, "required": gen.Arr("n")},
 			[]gen.S{{"n": 5.0}, {"n": 5.0, "f": 1.5, "t": true, "s": "ab"}, {"n": 5.0, "s": "a"}, {"f": 2.0}, {"n": -7.0, "t": false}}},
 		{"bounded", gen.S{"type": "object", "properties": gen.S{"n": gen.S{"type": "integer", "minimum": 1.0, "maximum": 3.0}, "e": gen.S{"type": "string", "enum": gen.Arr("u", "v")}}},
@@ -484,7 +533,11 @@ func formEncode(v gen.S) string {
 	return strings.Join(parts, "&")
 }
 
-func multipartEncode(v gen.S) (string, []byte) {
+func multipartEncode(v gen.S) (string, []byte) { return multipartEncodeQP(v, false) }
+
+// multipartEncodeQP: with qp, text parts are sent with Content-Transfer-Encoding: quoted-printable (RFC 2045), which a
+// MIME reader undoes before handing the part's value on.
+func multipartEncodeQP(v gen.S, qp bool) (string, []byte) {
 	var buf bytes.Buffer
 	mw := multipart.NewWriter(&buf)
 	mw.SetBoundary("vxBoundary7MA4YWxkTrZu0gW")
@@ -495,6 +548,14 @@ func multipartEncode(v gen.S) (string, []byte) {
 		if s, ok := e.(string); ok {
 			h.Set("Content-Type", "text/plain")
 			data = []byte(s)
+			if qp {
+				h.Set("Content-Transfer-Encoding", "quoted-printable")
+				var qb bytes.Buffer
+				qw := quotedprintable.NewWriter(&qb)
+				qw.Write(data)
+				qw.Close()
+				data = qb.Bytes()
+			}
 		} else {
 			h.Set("Content-Type", "application/json")
 			data, _ = json.Marshal(e)
@@ -540,7 +601,8 @@ func c06Forms(c *core.Ctx, fs c06form) {
 			body     []byte
 		}
 		mct, mbody := multipartEncode(v)
-		encs := []enc{{"urlencoded", "application/x-www-form-urlencoded", []byte(formEncode(v))}, {"multipart", mct, mbody}}
+		_, qpBody := multipartEncodeQP(v, true)
+		encs := []enc{{"urlencoded", "application/x-www-form-urlencoded", []byte(formEncode(v))}, {"multipart", mct, mbody}, {"multipart(quoted-printable parts)", mct, qpBody}}
 		for _, e := range encs {
 			if len(e.body) == 0 {
 				continue // an empty object has no urlencoded body distinct from "no body"
